@@ -13,6 +13,7 @@ Spec oracles run directly on the real outputs of every case:
     intended layout for the random modules.
 """
 import collections
+import time
 import json
 
 from harness.lib import common, cppdrv, embref, viewcorr
@@ -92,8 +93,10 @@ def _check_case_outputs(chk, case, sweep, answers, stats):
 def _run(chk, tier, model_ok):
     r = common.rng("C01")
     quick = tier == "quick"
-    n_random = 14 if quick else 120
-    n_base = 5 if quick else 12
+    tm = {}
+    t0 = time.time()
+    n_random = 10 if quick else 60
+    n_base = 5 if quick else 10
     cases, dist = viewcorr.make_cases(chk, r, n_random, corpus_prop=PROP)
     pinned = []
     for k in chk.known:
@@ -105,10 +108,14 @@ def _run(chk, tier, model_ok):
                 c.sexpr, c.unsupported = viewcorr.irpack.pack(c.prepared)
                 pinned.append((k, c, inp["commands"]))
     cases_all = cases + [c for _k, c, _cmds in pinned]
+    tm["prepare_s"] = round(time.time() - t0, 1)
+    t0 = time.time()
     failed = viewcorr.build_cases(cases_all, features=("obs",), workers=8,
                                   std="c++14" if quick else "c++17")
     for c in failed:
         raise common.InfraError("driver of %s does not compile: %s" % (c.name, c.build_log[-1500:]))
+    tm["build_s"] = round(time.time() - t0, 1)
+    t0 = time.time()
     stats = collections.Counter()
     crash_list = []
     per_case = []
@@ -118,12 +125,15 @@ def _run(chk, tier, model_ok):
                 cppdrv.monotone_violations(cppdrv.parse_obs(out[0]), cppdrv.parse_obs(out[1])):
             chk.report_known(k)
     for case in cases:
+        if len(chk.violations) >= 12:
+            chk.extra["stopped_early"] = "12 violations reported; remaining cases not run"
+            break
         sweep = viewcorr.obs_sweeps(r, case, n_base)
         cmds = [s[0] for s in sweep]
 
         def on_crash(cmd, rr, case=case):
             crash_list.append((case.name, cmd, viewcorr.crash_key(rr)))
-        answers = viewcorr.run_surviving(case, cmds, on_crash)
+        answers = viewcorr.run_surviving(case, cmds, on_crash, max_crashes=6)
         _check_case_outputs(chk, case, sweep, answers, stats)
         per_case.append((case, cmds, answers))
         if len(chk.cov["samples"]) < 4 and answers and answers[-1]:
@@ -131,6 +141,9 @@ def _run(chk, tier, model_ok):
     # crashes belong to C04; here they only reduce coverage (and are reported in evidence)
     chk.extra["sanitizer_or_check_aborts_skipped (C04's business)"] = [list(x) for x in crash_list[:10]]
     stats["crashed_commands"] = len(crash_list)
+    tm["run_and_oracles_s"] = round(time.time() - t0, 1)
+    t0 = time.time()
+    chk.extra["timing"] = tm
     # ---- correspondence with the Lean model fed with the real IR
     if model_ok:
         todo = [(case, cmds) for case, cmds, _a in per_case if case.sexpr]
@@ -173,6 +186,7 @@ def _run(chk, tier, model_ok):
                                    "(or no reference for this file); the model differs",
                                    "theorem_or_correspondence": "model_c01 OBS vs generated C++"},
                                   found_input=bool(d))
+        tm["model_s"] = round(time.time() - t0, 1)
         chk.extra["traces_validated_against_impl"] = validated
         chk.extra["disagreements"] = disagreements
     chk.extra["generator"] = dist.as_dict()
@@ -196,9 +210,12 @@ def run(tier):
     chk.trusted += ["g++/libstdc++/ASan/UBSan as oracle of what the generated C++ does",
                     "harness/lib/irpack.py transcribes the IR faithfully (exercised by the correspondence)",
                     "harness/lib/embref.py (reference semantics written from doc/*.md)"]
+    t0 = time.time()
     model_ok = common.proof_gate(chk, search)
+    gate = round(time.time() - t0, 1)
     if model_ok:
         _run(chk, tier, True)
+    chk.extra.setdefault("timing", {})["proof_gate_s"] = gate
     return chk.finish()
 
 
